@@ -60,6 +60,18 @@ pub fn run(op: &str, a: &[&str]) -> Option<Out> {
                 else if let Some(x) = o.strip_prefix("f:") { t.read_felt_from_prover(&felt(x)); }
                 else if let Some(x) = o.strip_prefix("v:") { t.read_felt_vector_from_prover(&felts(x)); }
                 else if let Some(x) = o.strip_prefix("u:") { t.read_uint64_from_prover(u64h(x)); }
+                // a commitment message sent through the commitment crate's own entry points: `c:<root>:<height>:<n_friendly>` =
+                // vector_commit, `t:<root>:<n_columns>:<height>:<n_friendly>` = table_commit.  The stored commitment must be the message
+                // as sent; if it is not, it is appended to the outputs (so that model and oracle see the difference)
+                else if let Some(x) = o.strip_prefix("c:") {
+                    let f: Vec<&str> = x.split(':').collect();
+                    let c = vector::commit::vector_commit(&mut t, felt(f[0]), vector::config::Config { height: felt(f[1]), n_verifier_friendly_commitment_layers: felt(f[2]) });
+                    if c.commitment_hash != felt(f[0]) { outs.push(c.commitment_hash); } }
+                else if let Some(x) = o.strip_prefix("t:") {
+                    let f: Vec<&str> = x.split(':').collect();
+                    let c = swiftness_commitment::table::commit::table_commit(&mut t, felt(f[0]), swiftness_commitment::table::config::Config { n_columns: felt(f[1]),
+                        vector: vector::config::Config { height: felt(f[2]), n_verifier_friendly_commitment_layers: felt(f[3]) } });
+                    if c.vector_commitment.commitment_hash != felt(f[0]) { outs.push(c.vector_commitment.commitment_hash); } }
                 else { panic!("HX-BAD-INPUT transcript op {}", o) }
             }
             Out::Ok(format!("{} {} {}", hxs(&outs), hx(t.digest()), hx(t.counter())))
